@@ -117,6 +117,9 @@ Proof. intros H. unfold bind. rewrite H. reflexivity. Qed.
 Lemma bind_panic {S A B} (m : M S A) (k : A -> M S B) s s' : m s = Panic s' -> bind m k s = Panic s'.
 Proof. intros H. unfold bind. rewrite H. reflexivity. Qed.
 
+Lemma bind_ret_l {S A B} (a : A) (k : A -> M S B) s : bind (ret a) k s = k a s.
+Proof. reflexivity. Qed.
+
 (* ---- for_range over a pure body: the result is the first index whose body yields Some ---- *)
 Lemma for_range_n_spec {St R} (body : Z -> M St (option R)) (f : Z -> option R) (s : St) :
   forall cnt lo, (forall i, lo <= i < lo + Z.of_nat cnt -> body i s = Val (f i) s) ->
